@@ -68,6 +68,10 @@ func init() {
 			{Name: "gsxC12BadCond", Pkg: "checkers", Solver: "z3", Quick: map[string]int{"paths": 4000, "wall_s": 60}, NoValidate: true, Tolerant: true, ReplayFn: replayC12BadCond, MustReach: []string{"always false"}},
 		},
 		Assumptions: []string{"badCond: two comparisons of one operand (identifier or impure call) against integer constants in [-8,8]; an impure call yields an independent value per evaluation"}}
+	properties["C04"] = &property{ID: "C04", Level: "model_checking", Extra: runC04,
+		Assumptions: []string{"Go memory model edges: go statement, WaitGroup Done->Wait, critical sections of one mutex totally ordered; the semaphore is taken at its maximal capacity (concurrency >= number of checkers), its channel edges are not used for ordering",
+			"Checker.Check is summarised as: reads the shared syntax/types/context, writes checker-owned state only (established by C05)",
+			"3 workers / 3 concurrent passes; branches inside the walked functions are over-approximated (all instructions of all blocks are events)"}}
 	properties["C11"] = &property{ID: "C11", Level: "translation_validation", Extra: runC11, ReplayExtra: replayC11,
 		Assumptions: []string{"patterns: the repository's own examples plus a bounded grammar (see evidence); Go's regexp/syntax parser is the semantics' front end; subjects are byte strings"}}
 	properties["C07"] = &property{
